@@ -11,9 +11,26 @@ def one(args):
     os.makedirs(env["VERIF_EVIDENCE_DIR"], exist_ok=True)
     p = subprocess.run([os.path.join(ROOT, "check"), c], env=env, capture_output=True, text=True)
     return s, c, p.returncode, [l for l in p.stdout.splitlines() if l.startswith("  -> ")]
+def touches(s, sub):
+    for g_ in ("seeded", "selftest", "benign"):
+        for n_ in ("patch.current.diff", "patch.diff"):
+            p_ = os.path.join(ROOT, g_, s, n_)
+            if os.path.exists(p_): return any(l.startswith(("+++ b/" + sub, "--- a/" + sub)) for l in open(p_, errors="replace"))
+    return True
+def needed(s, c):
+    """SM_SMART: a check whose abstract-interpretation scope lies in a crate the variant does not touch reports what it reports on the unchanged
+    tree (nothing): skipped, its structural rules are covered by the structural run"""
+    if not os.environ.get("SM_SMART") or s == "base": return True
+    if c == "C06": return touches(s, "renet/src")
+    if c in ("C04", "C07", "C17", "C18"): return touches(s, "renetcode/src")
+    return True
 res = {}
+jobs = [(s, c) for s in seeds for c in ALL if needed(s, c)]
+for s in seeds:
+    for c in ALL:
+        if not needed(s, c): res.setdefault(s, {})[c] = (-1, [])
 with cf.ThreadPoolExecutor(16) as ex:
-    for s, c, rc, lines in ex.map(one, [(s, c) for s in seeds for c in ALL]):
+    for s, c, rc, lines in ex.map(one, jobs):
         res.setdefault(s, {})[c] = (rc, lines)
 if os.environ.get("SM_JSON"):
     json.dump({s: {c: [res[s][c][0], res[s][c][1]] for c in ALL} for s in seeds}, open(os.environ["SM_JSON"], "w"))
